@@ -12,6 +12,7 @@ use crate::server::Wrap;
 use crate::session;
 use crate::{par_run, Cfg};
 use rdp::core::event::{BitmapEvent, KeyboardEvent, PointerButton, PointerEvent, RdpEvent};
+use rdp::core::global::{ts_keyboard_event, ts_pointer_event};
 use serde_json::{json, Value};
 
 #[derive(Clone, Debug)]
@@ -88,15 +89,29 @@ pub fn check_case(c: &Case, rep: &mut Report) {
     let mut profile = session::full_profile();
     profile.user_id = c.user_id;
     profile.share_id = c.share_id;
+    // two cases in three run against a server whose capability sets carry other (equally legitimate) values
+    let varied = c.gen[1] % 3 != 0;
+    if varied {
+        let mut vr = Rng::derive(c.gen[2], "C11-caps", c.gen[0], c.gen[1]);
+        profile.caps = crate::gen::caps_varied(&mut vr);
+    }
+    // one case in four runs without TLS, on a transport that takes only a few bytes per write call once the session
+    // is active (the submissions then go to the layer below RdpClient, whose button mapping is reproduced here)
+    let short_writes = c.gen[1] % 4 == 1;
     let opened = mon::guarded(|| -> Result<session::Session, String> {
-        let mut s = session::open_real(profile.clone(), false)?;
+        let mut s = if short_writes { session::open_plain(profile.clone(), false)? } else { session::open_real(profile.clone(), false)? };
         s.activate()?;
         Ok(s)
     });
     let mut s = match opened {
         Ok(Ok(s)) => s,
         Ok(Err(e)) => {
-            rep.selfcheck_fail(format!("could not open an active session: {}", e));
+            if varied {
+                // whether the client takes this server is C03's subject; without a session there is nothing to observe
+                rep.hist("session-with-varied-capabilities-not-opened");
+            } else {
+                rep.selfcheck_fail(format!("could not open an active session: {}", e));
+            }
             return;
         }
         Err(p) => {
@@ -104,6 +119,12 @@ pub fn check_case(c: &Case, rep: &mut Report) {
             return;
         }
     };
+    // one case in four: the transport takes only a few bytes per write call from now on
+    if short_writes {
+        let chunk = [1usize, 16, 47, 5][(c.gen[1] / 4 % 4) as usize];
+        s.server.with(|sv| sv.write_chunk = chunk);
+        rep.hist("short-write-transport");
+    }
     let mut nev = s.server.with(|sv| sv.events.len());
     let mut viol: Vec<(String, String)> = Vec::new();
     let mut sent = 0u64;
@@ -138,8 +159,25 @@ pub fn check_case(c: &Case, rep: &mut Report) {
                 continue;
             }
         };
-        let rc = s.client.real().unwrap();
-        let res = mon::guarded(|| rc.write(ev).map_err(|e| err_kind(&e)));
+        let res = match &mut s.client {
+            crate::client::Client::Real(rc) => mon::guarded(|| rc.write(ev).map_err(|e| err_kind(&e))),
+            crate::client::Client::Plain(p) => {
+                let pdu = match op {
+                    Op::Pointer { x, y, button: b, down } => {
+                        let base: u16 = match b {
+                            1 => 0x1000,
+                            2 => 0x2000,
+                            3 => 0x4000,
+                            _ => 0x0800,
+                        };
+                        ts_pointer_event(Some(base | if *down { 0x8000 } else { 0 }), Some(*x), Some(*y))
+                    }
+                    Op::Key { code, down } => ts_keyboard_event(Some(if *down { 0 } else { 0x8000 }), Some(*code)),
+                    _ => continue,
+                };
+                mon::guarded(|| p.global.write_input_event(pdu, &mut p.mcs).map_err(|e| err_kind(&e)))
+            }
+        };
         let res = match res {
             Ok(r) => r,
             Err(p) => {
